@@ -58,7 +58,7 @@ def norm_sym(t, symbols):
 
 
 def simplify(t):
-    """optor(maxof(map(_, λ. k)), k) = k  (a maximum of a constant with the same default)"""
+    """max{maxof(map(_, λ. k)), k} = k  (a maximum of a constant with the same default)"""
     def walk(x):
         if not isinstance(x, tuple):
             return x
@@ -68,12 +68,13 @@ def simplify(t):
                 acc = T.add(acc, T.scale(T.as_lin(walk(r)), c))
             return acc
         x = tuple(walk(y) for y in x)
-        if is_tag(x, 'optor'):
-            inner = T.unroot(x[1])
-            if is_tag(inner, 'maxof') and is_tag(inner[1], 'map') and is_tag(inner[1][2], 'lam'):
-                body = inner[1][2][2]
-                if T.is_const(T.as_lin(body)) and T.as_lin(body) == T.as_lin(x[2]):
-                    return T.as_lin(body)
+        if is_tag(x, 'max') and len(x[1]) == 2:
+            consts = [c for c in x[1] if T.is_const(c)]
+            mo = [T.unroot(c) for c in x[1] if is_tag(T.unroot(c), 'maxof')]
+            if len(consts) == 1 and len(mo) == 1 and is_tag(mo[0][1], 'map') and is_tag(mo[0][1][2], 'lam'):
+                body = mo[0][1][2][2]
+                if T.is_const(T.as_lin(body)) and T.as_lin(body) == consts[0]:
+                    return consts[0]
         return T.renorm(x)
     return walk(t)
 
